@@ -216,7 +216,10 @@ impl EditState {
     /// This function will return an error if .
     pub fn stamp_layer_down(&mut self) -> EngineResult<()> {
         let _undo = self.begin_atomic_undo(fl!(crate::LANGUAGE_LOADER, "undo-stamp-down"));
-        let layer_idx = self.current_layer;
+        let layer_idx = self.get_current_layer()?;
+        if layer_idx == 0 {
+            return Err(anyhow::anyhow!("Cannot stamp down base layer"));
+        }
         let layer = if let Some(layer) = self.get_cur_layer() {
             layer.clone()
         } else {
